@@ -65,10 +65,10 @@ def judge(dt, version, s, rec, via='factory'):
     from hl7apy.factories import datatype_factory
     from hl7apy.exceptions import MaxLengthReached, HL7apyException
     from hl7apy import core
-    mem = lexref.member(dt, s)
+    mem = lex = lexref.member(dt, s)
     out_of_domain = False
     if not s.isascii():
-        mem, out_of_domain = None, True          # the quantifier's alphabet is ASCII
+        mem = None          # the quantifier's alphabet is ASCII: STRICT acceptance is not judged (TOLERANT keeps any text)
     if dt in ('DT', 'DTM') and s[:4].isdigit() and len(s) >= 4 and int(s[:4]) < 1000:
         mem, out_of_domain = None, True          # years below 1000 are outside the quantifier
     for level, lname in ((1, 'STRICT'), (2, 'TOLERANT')):
@@ -103,7 +103,7 @@ def judge(dt, version, s, rec, via='factory'):
                 rec.violation(classify(dt, lname, s, outcome, out) or 'tolerant-text-not-preserved', case, {'out': out})
             continue
         # STRICT
-        if dt in lexref.MAXLEN and mem is not False and len(s) > lexref.MAXLEN[dt]:
+        if dt in lexref.MAXLEN and mem is not False and lex is not False and len(s) > lexref.MAXLEN[dt]:
             # longer than the maximum as written; when the number's plain form is longer too it must be refused,
             # otherwise (superfluous sign / leading zeros) the statement does not settle it
             canon = s.lstrip('+')
@@ -292,6 +292,10 @@ HOSTILE = ['1' * 29 + '.5', '123456789012345678901234567890.5', '-' + '9' * 40, 
            # a line feed / blank glued to an otherwise valid value is part of the text: no member, kept verbatim by TOLERANT
            '1230+0100\n', '20200101120000+0100\n', '20200101-0500\n', '1230\n', '2020\n', '12\n', '1\n', '1\r', '\n1',
            '1230+0100\r', '1230+0100 ', '12\t', '1230+0100\x0b', '20200101\x0c', '1\x1c', '12\x85', '1\u2028',
+           # digits of other scripts are no digits of the HL7 lexical definitions
+           '\u0661\u0662.\u0665', '\uff11\uff12', '\u0663', '-\u0663', '1\u0662', '\u0967\u0968', '12\u00b2', '0.\u0665',
+           '\uff12\uff10\uff12\uff10\uff10\uff11\uff10\uff11', '\uff11\uff12\uff13\uff10', '2020010\u0661', '1230+01\u06600',
+           '\uff12\uff10\uff12\uff10\uff10\uff11\uff10\uff11\uff11\uff12', '2020\u0660101', '12\uff130', '1230.\u0665',
            'not a number ' * 20, 'x' * 1100, '2020' + 'y' * 300, '12' + ' ' * 250 + '3', '1' * 250, '9' * 1000]
 
 
